@@ -209,6 +209,25 @@ def corpus_names():
 # ---------------------------------------------------------------------------
 
 PROBES = {
+  # F33 (fixed): a sub-component whose name is a SystemVerilog reserved word was emitted as an instance
+  # name; the translator must refuse it like it refuses reserved port / wire names
+  "reserved_word_subcomponent": '''
+from pymtl3 import *
+class C_{uid}(Component):
+  def construct(s):
+    s.in_ = InPort(Bits8)
+    s.out = OutPort(Bits8)
+    @update
+    def up():
+      s.out @= s.in_ + 1
+class Top_{uid}(Component):
+  def construct(s):
+    s.in_ = InPort(Bits8)
+    s.out = OutPort(Bits8)
+    s.cell = C_{uid}()
+    s.cell.in_ //= s.in_
+    s.out //= s.cell.out
+''',
   # F17: sext() of a non-trivial expression
   "sext_of_expression": '''
 from pymtl3 import *
@@ -354,7 +373,10 @@ def build_instances(case):
       top.elaborate()
       return top
     return make
-  src = PROBES[case["name"]].format(uid=case["uid"])
+  if fam == "ifcgen":
+    src = case["src"]
+  else:
+    src = PROBES[case["name"]].format(uid=case["uid"])
 
   def make():
     ns, cls, _ = emit.build({"uid": case["uid"], "top": "Top"}, src=src)
@@ -371,7 +393,13 @@ def gen_case(R, tier, backend, profile="translatable"):
   r = c.random()
   base = {"backend": backend, "hash_seed": R.sub_seed("hash"), "uid": "x%x" % (R.seed & 0xffffff),
           "orders": [s.getrandbits(16) for _ in range(2)], "input_seed": inp.getrandbits(32)}
-  if r < 0.62:
+  if r < 0.10:
+    # interface-centred designs: N-D lists of interfaces / of components holding them, nested interfaces,
+    # interface-level connects with a seeded permutation
+    from ..gen import ifcrtl
+    src, gst = ifcrtl.gen(c, base["uid"])
+    base.update(family="ifcgen", name="ifcgen", src=src, gen_stats=gst, ncycles=inp.randint(6, 14), resets=[])
+  elif r < 0.62:
     spec = designgen.DesignGen(c, profile, uid=base["uid"]).gen()
     base.update(family="random", spec=spec, ncycles=inp.randint(8, 24),
                 resets=sorted({inp.randrange(24) for _ in range(inp.choice([0, 0, 1, 2]))}))
@@ -437,7 +465,13 @@ def run_case(case):
   except svsim.SvSyntaxError as e:
     return out(bad("sv_syntax", error=str(e)[:300], line=_line_of(text, e)), "sv_syntax")
   except svsim.SvElabError as e:
-    return out(bad("sv_elab", error=str(e)[:300], line=_line_of(text, e)), "sv_elab")
+    v = bad("sv_elab", error=str(e)[:300], line=_line_of(text, e))
+    if fam == "ifcgen" and backend == "yosys" and case.get("gen_stats", {}).get("nested_list") and \
+       "undeclared identifier" in str(e) and "__leaf__" in str(e):
+      # known finding F32: a LIST of nested interfaces inside an interface has no array wires in the
+      # Yosys backend (recognised by the design shape + the missing identifier)
+      v["sig"]["shape"] = "yosys_nested_interface_list"
+    return out(v, "sv_elab")
   issues = design.static_issues()
   # 'undriven' (read but never driven) mirrors undriven wires of the PyMTL source (they read 0 on both
   # sides in two-state semantics) and svsim reports it conservatively: counted, not a violation.
